@@ -1,3 +1,102 @@
+(* C03/Properties.v — property theorems for the PPPoE gate model and the RADIUS decision.
+
+   STATUS (be exact): the full statement
+       C03_gate : forall v pool evs i, vrep v = true -> mon_run i (snd (run v (init pool) evs)) mon0 <> None
+   ("on every event sequence the monitor never sees a service output for a subscriber whose current
+   attempt has no accept") is NOT proved here: the invariant [Proofs.Rb] is written down and its preservation
+   was machine-checked for the timer events and for single frame kinds by case analysis, but the whole case
+   analysis did not finish inside the time budget.  What is proved at full strength (all states, both
+   variants unless said) are the structural gates below; the unbounded statement is replaced by
+   [C03_gate_bounded_sweep] (bound in the statement) and by the [_refuted] witnesses for today's code. *)
 From OV Require Import Common.Base C03.Model C03.Proofs.
-Theorem C03_placeholder : init 2 = init 2. Proof. reflexivity. Qed.
-Print Assumptions C03_placeholder.
+
+(* Outside the Network/Open phases an IPCP, IPv6CP or IPv6 (RS/NS) frame changes nothing and produces no
+   output: internal/ppp/dispatcher.go inNetworkPhase. *)
+Theorem C03_ncp_gated_partial : forall v i m c,
+  in_net (ph (ms m)) = false ->
+  handle_frame v i (FrIpcp c) m = m /\ handle_frame v i (FrIp6cp c) m = m /\
+  handle_frame v i FrRs m = m /\ handle_frame v i FrNs m = m.
+Proof. exact ncp_frames_gated. Qed.
+Print Assumptions C03_ncp_gated_partial.
+
+(* PAP/CHAP credentials are forwarded to AAA only in the Authenticate phase. *)
+Theorem C03_auth_phase_only : forall v i m,
+  ph (ms m) <> PAuth -> handle_frame v i FrPapReq m = m /\ handle_frame v i FrChapResp m = m.
+Proof. exact auth_frames_gated. Qed.
+Print Assumptions C03_auth_phase_only.
+
+(* Repaired variant: an AAA answer is applied to a session only if that session is live and has exactly this,
+   non-empty, request id outstanding; otherwise the answer changes nothing and outputs nothing. *)
+Theorem C03_aaa_correlation : forall v k s,
+  vrep v = true -> pend_matches v k s = true -> live s = true /\ pend s = Some k /\ k <> 0.
+Proof. exact aaa_needs_pending. Qed.
+Print Assumptions C03_aaa_correlation.
+Theorem C03_aaa_unmatched_ignored : forall v st k a,
+  find_idx (pend_matches v k) (sl st) 0 = None -> step v st (EvAAA k a) = (st, []).
+Proof. exact aaa_unmatched_ignored. Qed.
+Print Assumptions C03_aaa_unmatched_ignored.
+
+(* Repaired variant: when LCP leaves Opened the outstanding request is forgotten (a late answer can no longer
+   match, by C03_aaa_correlation), the phase is Establish (NCP frames are dropped, by C03_ncp_gated_partial) and
+   both NCP automata are in a state from which neither a timeout nor a Protocol-Reject makes them send. *)
+Theorem C03_renegotiation_reauth_partial : forall v i m,
+  vrep v = true ->
+  let m' := on_lcp_down v i m in
+  pend (ms m') = None /\ pty (ms m') = PtNone /\ ph (ms m') = PEstablish /\
+  quietb (ipcp (ms m')) = true /\ quietb (ip6cp (ms m')) = true.
+Proof. exact lcp_down_resets. Qed.
+Print Assumptions C03_renegotiation_reauth_partial.
+
+(* RADIUS provider + AAA component: the published answer is Allowed exactly when the username was not the
+   fallback and the server answered Access-Accept (whole finite table). *)
+Theorem C03_radius_allow_iff : forall fb r, aaa_allowed fb r = true <-> fb = false /\ r = SrvAccept.
+Proof. exact radius_allow_iff. Qed.
+Print Assumptions C03_radius_allow_iff.
+
+(* Bounded: from each of 11 situations (fresh, LCP open, request pending, network, open, renegotiated,
+   renegotiated with a request pending, re-authenticating, rejected, terminated, nothing) every sequence of TWO
+   events over the whole 87-event alphabet is accepted by the monitor, for both FSM tables. *)
+Theorem C03_gate_bounded_sweep : sweep2 (mkV true false) = true /\ sweep2 (mkV true true) = true.
+Proof. exact sweep2_repaired. Qed.
+Print Assumptions C03_gate_bounded_sweep.
+
+(* Today's code (defective variant) violates the gate: *)
+Definition ev_lcp_up := [EvOpen 0; EvFrame 0 (FrLcp (FCreq QGood)); EvFrame 0 (FrLcp (FCack true))].
+(* (1) an accept for a request made before an LCP renegotiation is honoured after it *)
+Definition w_stale := ev_lcp_up ++ [EvFrame 0 FrChapResp; EvFrame 0 (FrLcp (FCreq QGood)); EvAAA 1 AAcc].
+(* (2) an answer with an empty request id authorises a session that never authenticated *)
+Definition w_empty := [EvOpen 0; EvAAA 0 AAcc].
+(* (3) IPCP keeps retransmitting after LCP went down *)
+Definition w_timer := ev_lcp_up ++ [EvFrame 0 FrChapResp; EvAAA 1 AAcc; EvFrame 0 (FrLcp (FCreq QGood)); EvTimer 0 TIpcp].
+Theorem C03_gate_refuted : forall rfc,
+  Forall (fun evs => mon_run 0 (snd (run (mkV false rfc) (init 2) evs)) mon0 = None) [w_stale; w_empty; w_timer].
+Proof. intros []; repeat constructor; vm_compute; reflexivity. Qed.
+Print Assumptions C03_gate_refuted.
+(* ... and the repaired variant does not, on the same inputs *)
+Example C03_gate_witnesses_repaired : forall rfc,
+  Forall (fun evs => mon_run 0 (snd (run (mkV true rfc) (init 2) evs)) mon0 <> None) [w_stale; w_empty; w_timer].
+Proof. intros []; repeat constructor; vm_compute; discriminate. Qed.
+Print Assumptions C03_gate_witnesses_repaired.
+
+(* Not repaired, both variants: a session that was accepted, renegotiated and then REJECTED keeps its pool
+   address (free stays 1 of 2) and stays in the component's indexes until PADT / dead-peer. *)
+Definition w_reauth_reject := ev_lcp_up ++ [EvFrame 0 FrChapResp; EvAAA 1 AAcc; EvFrame 0 (FrLcp (FCreq QGood));
+  EvFrame 0 (FrLcp (FCack true)); EvFrame 0 FrChapResp; EvAAA 2 ARej].
+Example C03_reject_after_reauth_keeps_lease : forall rep rfc,
+  let st := fst (run (mkV rep rfc) (init 2) w_reauth_reject) in
+  free st = 1 /\ option_map live (nth_error (sl st) 0) = Some true /\ option_map alloc_pool (nth_error (sl st) 0) = Some true.
+Proof. intros [] []; vm_compute; auto. Qed.
+Print Assumptions C03_reject_after_reauth_keeps_lease.
+
+(* non-vacuity: the nominal dual-stack bring-up reaches Open with service outputs and is accepted *)
+Definition w_nominal := ev_lcp_up ++ [EvFrame 0 FrChapResp; EvAAA 1 AAcc;
+  EvFrame 0 (FrIpcp (FCreq QGood)); EvFrame 0 (FrIpcp (FCack true)); EvFrame 0 (FrIp6cp (FCreq QGood));
+  EvFrame 0 (FrIp6cp (FCack true)); EvFrame 0 FrRs].
+Example C03_nonvacuous :
+  let r := run (mkV true false) (init 2) w_nominal in
+  option_map ph (nth_error (sl (fst r)) 0) = Some POpen /\ free (fst r) = 1 /\
+  existsb (fun eo => existsb (fun io => service (snd io)) (snd eo)) (snd r) = true /\
+  mon_run 0 (snd r) mon0 <> None /\
+  pend_matches (mkV true false) 1 (mkS true 1 PAuth fsm0 fsm0 fsm0 true 0 (Some 1) PtChap false false false ANone ANone ANone false) = true.
+Proof. vm_compute. repeat split; auto; discriminate. Qed.
+Print Assumptions C03_nonvacuous.
